@@ -1006,7 +1006,7 @@ impl<P: Payload> World<P> {
         }
         // ---- non-triviality
         if free.len() >= 2 {
-            o.nt.push(("C07", self.key(&[opname, "free>=2", &free.len().to_string()], &[])));
+            o.nt.push(("C07", fnv(&format!("{opname}|free>=2|{}|{}", free.len(), self.m.shape()))));
         }
         if recycled && bystanders >= 1 {
             o.nt.push(("C08", self.key(&[opname, "recycle-with-bystanders"], &[slot])));
@@ -1331,7 +1331,7 @@ impl<P: Payload> World<P> {
             o.nt.push(("C12", key));
         }
         if subtree && sub_len >= 2 {
-            o.nt.push(("C07", self.key(&[opname, "free-many", &sub_len.min(6).to_string()], &[])));
+            o.nt.push(("C07", fnv(&format!("{opname}|free-many|{}|{}", sub_len, self.m.shape()))));
         }
         o
     }
